@@ -782,6 +782,51 @@ def c04_steal(ctx):
     return out
 
 
+def c04_stop(ctx):
+    """sync returns once the operations ahead of it are done: a caller that runs the queue itself looks at its own completion condition
+    before every further job, so it never goes on to run what was scheduled behind its own closure (which may block, suspend, or never end)."""
+    out = []
+    R = 'ORD-C04-stop'
+    for name in (S + 'sync_drain', S + 'sync_background'):
+        fn = _fn(ctx, name, R, out)
+        if not fn:
+            continue
+        key = short(name) + '|retest-before-each-job'
+        runs = [bb for bb, t in calls(fn, 'JobQueue::run_one_job_now') if not fn.blocks[bb]['cleanup']]
+        if not runs:
+            out.append(bad(R, key, 'the caller no longer runs jobs from the queue itself', fn=name))
+            continue
+        waits = set(bb for bb, t in calls(fn, 'Condvar::wait'))
+        rets = set(fn.exits())
+        problems = []
+        for r in runs:
+            tgt = fn.blocks[r]['term']['target']
+            if tgt is None or r not in fn.reachable_blocks(tgt, avoid=waits):
+                problems.append('run_one_job_now is not in a loop: the caller runs one job and then gives up (its own closure may still be queued)')
+                continue
+            loop = set(b for b in fn.reachable_blocks(tgt, avoid=waits) if r in fn.reachable_blocks(b, avoid=waits))
+            tests = set()
+            for b in loop:
+                t = fn.blocks[b]['term']
+                if t and t['k'] == 'switch':
+                    for s_ in [tb for _, tb in t['targets']] + [t['otherwise']]:
+                        if s_ is None:
+                            continue
+                        rs = fn.reachable_blocks(s_, avoid=waits)
+                        if r not in rs and ((rs & rets) or (rs & waits)):
+                            tests.add(b)
+            if not tests:
+                problems.append('the job loop has no exit test')
+            elif not fn.must_pass(tgt, {r}, tests | waits):
+                problems.append('after a job the caller can run the next one without looking at whether its own closure has completed: it goes on to run the operations scheduled behind it, '
+                                'and returns only when the queue is empty (never, under a steady stream of work; a deadlock if one of them waits for this call to return)')
+        if problems:
+            out.append(bad(R, key, problems[0], fn=name))
+        else:
+            out.append(ok(R, key, 'every turn of the job loop passes the completion test (%d run site(s))' % len(runs), fn=name))
+    return out
+
+
 def c04_result(ctx):
     """sync returns its own closure's value: the result slot is private to the call, read once after completion, and an empty slot panics."""
     out = []
@@ -894,8 +939,9 @@ def c10_spawn(ctx):
     t_edge = es.get('otherwise') if es else None
     if f_edge is None or t_edge is None:
         out.append(undecided(R, key, 'shape not recognised'))
-    elif edom(st, f_edge, sp[0][0]) and edom(st, t_edge, rec[0][0]):
-        out.append(ok(R, key, 'no dormant thread -> try to spawn below the maximum -> on success retry', fn=st.name))
+    elif edom(st, f_edge, sp[0][0]) and edom(st, t_edge, rec[0][0]) \
+            and st.must_pass(f_edge, set(st.exits()), {sp[0][0]}) and st.must_pass(t_edge, set(st.exits()), {rec[0][0]}):
+        out.append(ok(R, key, 'no dormant thread -> always try to spawn below the maximum -> on success always retry', fn=st.name))
     else:
         out.append(bad(R, key, 'a queue that found no dormant thread does not (always) lead to a spawn attempt followed by a retry', fn=st.name))
     return out
@@ -1421,6 +1467,10 @@ def c11(ctx):
         problems.append('the processing future is awaited before it was created')
     if polls[0].bb not in k.reachable_blocks(aw[0]['ready']):
         problems.append('the loop does not return to the stream after an item')
+    # what the stream answered is always looked at: no path leaves the loop turn between the poll and the test of its result
+    tgt = polls[0].t['target']
+    if tgt is not None and not k.must_pass(tgt, set(k.exits()) | {polls[0].bb}, {e['_bb']}):
+        problems.append('the poll function can return (or poll again) after polling the stream without looking at what it answered: an item the stream has already handed over is dropped unprocessed')
     if not k.must_pass(some, {polls[0].bb}, {aw[0]['ready']}):
         problems.append('the next stream poll can happen before the previous item\'s processing future completed (items overlap or are skipped)')
     # the item is moved into the call
@@ -1522,6 +1572,9 @@ def c12(ctx):
     pt = [t for (bb, m, t) in u.calls.get('pending', []) if m == 'push_back'][0]
     if polls[0].bb not in k.reachable_blocks(pushes[0]):
         problems.append('the loop does not return to the input after an output')
+    tgt = polls[0].t['target']
+    if tgt is not None and not k.must_pass(tgt, set(k.exits()) | {polls[0].bb}, {e['_bb']}):
+        problems.append('the poll function can return (or poll again) after polling the input without looking at what it answered: an item the input has already handed over is dropped')
     if problems:
         out.append(bad(R, key, '; '.join(problems), fn=k.name))
     else:
@@ -1726,7 +1779,26 @@ def c16(ctx):
     bp_some = [bb for (bb, i, v) in u.assigns.get('backpressure_release_notify', []) if v[0] == 'agg' and v[2] == 'core::option::Option::Some']
     nsc_none = [bb for (bb, i, v) in u.assigns.get('notify_stream_closed', []) if v[0] == 'agg' and v[2] == 'core::option::Option::None']
     kept = bool(bp_some) and not any(b == t_ or t_ in k.reachable_blocks(b) for b in nsc_none for t_ in bp_some)
-    if not pw or not bp_some:
+    # the waker parked in the back-pressure slot is the pipe's own (its wake-up schedules a fresh poll job and holds the context weakly enough
+    # for the one-shot rule above), never the waker of the job that is running the poll function: parking that one suspends the poll job in
+    # the middle of the target's queue, where it holds the stream core, the context and the input - and PipeStream::drop does not fire this slot
+    ambient = []
+    for k2 in _children(ctx, 'desync::pipe'):
+        u2 = FieldUse(k2, 'desync::PipeStreamCore')
+        for (bb2, i2, v2) in u2.assigns.get('backpressure_release_notify', []):
+            if v2[0] == 'agg' and v2[2].endswith('Option::Some'):
+                txt = render(v2)
+                if 'waker(' in txt.replace('from_waker(', 'from_w(') and 'from_waker(' not in txt:
+                    ambient.append((k2, bb2, txt))
+    if ambient:
+        k2, bb2, txt = ambient[0]
+        out.append(bad(R, 'pipe|throttled-parks-own-waker', 'the throttled producer parks the waker of the job that is running it (%s) instead of the pipe\'s own waker: the poll job is suspended in the '
+                       'target\'s queue holding the stream core, the context and the input stream, only a read of the output could resume it, and dropping the output never does' % txt[:60], loc=k2.loc(bb2), fn=k2.name))
+    elif bp_some:
+        out.append(ok(R, 'pipe|throttled-parks-own-waker', 'the back-pressure slot receives the pipe\'s own waker; the throttled poll job ends instead of suspending', fn=k.name))
+    if ambient:
+        pass
+    elif not pw or not bp_some:
         out.append(undecided(R, key, 'PipeWaker::wake_by_ref or the back-pressure registration in pipe() not found'))
     elif one_shot and kept:
         out.append(ok(R, key, 'a PipeWaker gives up its context when it fires, and the throttled return leaves the close notifier of the previous poll registered', fn=k.name))
